@@ -110,6 +110,115 @@ example : validPrefix Tables.fieldSafePrefix = true ∧
     safeName tblEnv tblUEnv ⟨.original, Tables.fieldSafePrefix⟩ [Char.ofNat 0x2070] = .ok "value_".toList := by
   decide +kernel
 
+/-! ## names that Python would rewrite inside a class body
+
+A name that starts with two underscores (and does not end with two) is *mangled* when it is
+written inside a class body: the type hint `T.__a` of a field of `T` is compiled as
+`T._T__a`. All cases except `originalCase` start with a letter; `originalCase` (repair
+`c07e-01`) now collapses a leading run of underscores to one. -/
+
+def startsDunder : Str → Bool
+  | '_' :: '_' :: _ => true
+  | _ => false
+
+theorem not_dunder_of_headAlpha (s : Str) (hh : headAlpha s = true) : startsDunder s = false := by
+  cases s with
+  | nil => rfl
+  | cons a t =>
+    have ha : a ≠ '_' := by
+      intro h0; subst h0
+      have : isAsciiAlpha '_' = false := by decide
+      simp [headAlpha, this] at hh
+    unfold startsDunder
+    split
+    · rename_i heq
+      simp only [List.cons.injEq] at heq
+      exact absurd heq.1 ha
+    · rfl
+
+/-- **never mangled**: for all eight naming cases, every accepted prefix and every input name,
+the result of `safe_name` does not start with two underscores. -/
+theorem safe_name_never_mangled (e : Env) (u : UEnv) (cv : Conv) (hv : validPrefix cv.pfx = true)
+    (name r : Str) (h : safeName e u cv name = .ok r) : startsDunder r = false := by
+  obtain ⟨n, r', hD, hr, hf, _⟩ := run_valid e u cv hv name
+  have := fuel_mono' e u cv r' 11 53 name hf
+  unfold safeName defaultFuel at h
+  rw [this] at h
+  cases h
+  by_cases hc : cv.case = .original
+  · rw [hc] at hr
+    simp only [applyCase, Option.some.injEq] at hr
+    subst hr
+    cases hres : originalCase u n with
+    | nil => rfl
+    | cons a t =>
+      cases t with
+      | nil => simp [startsDunder]
+      | cons b t' =>
+        by_cases hab : a = '_' ∧ b = '_'
+        · exfalso
+          obtain ⟨rfl, rfl⟩ := hab
+          exact collapseLead_not_dunder (originalCore u n) t' hres
+        · unfold startsDunder
+          split
+          · rename_i heq
+            simp only [List.cons.injEq] at heq
+            exact absurd ⟨heq.1, heq.2.1⟩ hab
+          · rfl
+  · obtain ⟨r2, hr2, hh, _⟩ := applyCase_shape u cv.case hc n hD.2
+    rw [hr] at hr2
+    cases hr2
+    exact not_dunder_of_headAlpha _ hh
+
+example : safeName tblEnv tblUEnv ⟨.original, Tables.classSafePrefix⟩ "__a".toList = .ok "_a".toList ∧
+    safeName tblEnv tblUEnv ⟨.original, Tables.classSafePrefix⟩ "___Inner".toList = .ok "_Inner".toList ∧
+    safeName tblEnv tblUEnv ⟨.original, Tables.classSafePrefix⟩ "_USERName".toList = .ok "_USERName".toList := by
+  decide +kernel
+
+/-! ## a field named like a class
+
+`C07-field-named-like-inner-class`: the field of an element and the inner class of its anonymous
+type are both named after the element, each by its own convention, at render time. Whether the
+two strings differ is a property of the pair of conventions, not of the schema. -/
+
+/-- **field and class names never coincide** when the field case always starts with a lower-case
+letter (snakeCase, camelCase) and the class case always starts with a capital (pascalCase,
+mixedPascalCase, screamingSnakeCase): for all accepted prefixes and ANY two input names. The
+default pair (snake, pascal) is one of the six. -/
+theorem field_name_never_a_class_name (e : Env) (u : UEnv) (cvF cvC : Conv)
+    (hvF : validPrefix cvF.pfx = true) (hvC : validPrefix cvC.pfx = true)
+    (hF : startsLower cvF.case = true) (hC : startsUpper cvC.case = true)
+    (a b rf rc : Str) (hf : safeName e u cvF a = .ok rf) (hcn : safeName e u cvC b = .ok rc) : rf ≠ rc := by
+  obtain ⟨n1, r1, hD1, hr1, hf1, _⟩ := run_valid e u cvF hvF a
+  obtain ⟨n2, r2, hD2, hr2, hf2, _⟩ := run_valid e u cvC hvC b
+  have e1 := fuel_mono' e u cvF r1 11 53 a hf1
+  have e2 := fuel_mono' e u cvC r2 11 53 b hf2
+  unfold safeName defaultFuel at hf hcn
+  rw [e1] at hf
+  rw [e2] at hcn
+  cases hf
+  cases hcn
+  have h1 := (applyCase_head u cvF.case n1 rf hD1.2 hr1).2 hF
+  have h2 := (applyCase_head u cvC.case n2 rc hD2.2 hr2).1 hC
+  intro heq
+  subst heq
+  cases rf with
+  | nil => simp [headLower] at h1
+  | cons c t => exact upper_lower_disjoint c h2 h1
+
+theorem default_pair_separates : startsLower fieldConv.case = true ∧ startsUpper classConv.case = true := by
+  decide
+
+/-- the finding, in the model: with class names in snakeCase (or field names in pascalCase, or
+both in originalCase, ...) the element `b` gives field `b` and inner class `b` -/
+theorem field_named_like_inner_class :
+    safeName Env.ascii UEnv.ascii fieldConv ['b'] = safeName Env.ascii UEnv.ascii ⟨.snake, classConv.pfx⟩ ['b'] ∧
+    safeName Env.ascii UEnv.ascii ⟨.pascal, fieldConv.pfx⟩ ['b'] = safeName Env.ascii UEnv.ascii classConv ['b'] ∧
+    safeName Env.ascii UEnv.ascii ⟨.original, fieldConv.pfx⟩ ['b'] =
+      safeName Env.ascii UEnv.ascii ⟨.original, classConv.pfx⟩ ['b'] := by
+  decide +kernel
+
+
 /-! ## keywords
 
 "Keyword" = hard keyword: `keyword.kwlist` of the interpreter that runs xsdata (extracted into
